@@ -209,6 +209,13 @@ def layout(ctx, rule, expect_c=None):
         wantn = {(k.replace("*", "") if isinstance(k, str) else k): v for k, v in want.items()}
         ctx.ob(rule, "size-helper=encoder-length", norm == wantn, "%s:%d" % (sz.file, sz.line),
                "predicate_encoded_size = %s; the encoder emits %s" % (L.show(form), L.show(want)), sz)
+    # the public methods forward to the codec functions with their argument unchanged
+    for meth, callee, arg in [("encode", "encode_predicate", "self"), ("decode", "decode_predicate", "bytes"), ("encoded_size", "predicate_encoded_size", "self")]:
+        w = prog.fn("essential_types::predicate::Predicate::" + meth)
+        if ctx.anchor(rule, "fn Predicate::" + meth, w):
+            ctx.saw(w)
+            rows = [(v, at) for _, v, at in M.return_table(prog, w)]
+            ctx.ob(rule, "Predicate::%s:forwards-unchanged" % meth, rows == [("essential_types::predicate::encode::%s(%s)" % (callee, arg), [])], "%s:%d" % (w.file, w.line), "returns %s" % [(v[:90], at) for v, at in rows], w)
     dec = prog.fn("essential_types::predicate::encode::decode_predicate")
     if ctx.anchor(rule, "fn decode_predicate", dec):
         ctx.saw(dec)
